@@ -6,7 +6,7 @@ PROPERTY = {
     "title": "every response reaches exactly the request it answers on a shared connection",
     "level": "proof",
     "level_text": "Deductive proof of the safety core over all states: Verus proves on the extracted real ResponseHandlerMap/OrphanageTracker/StreamIdSet code a representation invariant (used bits = waiting ∪ orphaned ids, disjoint, request<->stream bijection) preserved by allocate/orphan/lookup, that allocate never returns an id owned by an unanswered request (waiting or abandoned), and that lookup hands out exactly the handler registered under the response's stream id. Every schedule of one connection is a sequence of these calls (stated reduction).",
-    "level_note": "Trusted: Verus/Z3, vstd HashMap/BTreeSet models; StreamIdSet::allocate's contract is assumed in the Verus unit and discharged separately by Kani on the real function; single-task router discipline; unique request ids. Not covered: socket/coalescing schedules, cross-task cancellation races.",
+    "level_note": "Trusted: Verus/Z3, vstd HashMap/BTreeSet models; StreamIdSet::allocate is proved by Verus on the real 512-word bitmap after the extractor's `iter_mut().enumerate()` -> index-loop desugaring (a trusted, mechanically applied rule; the Kani harnesses on the compiled original cross-check it on 8-word and shaped 512-word bitmaps); vstd's u64::trailing_ones axioms; single-task router discipline; unique request ids. Not covered: socket/coalescing schedules, cross-task cancellation races.",
     "technique": 'contract-based deductive verification: data-structure invariant + per-operation contracts in Verus on extracted functions',
     "verus": [
         Unit("c02_handler_map", "C02", "c02_handler_map.vrs", desc={
@@ -14,6 +14,8 @@ PROPERTY = {
             "new": "fresh state: no id used / empty maps, invariant holds",
             "insert": "orphan set gains exactly stream_id", "remove": "orphan set loses exactly stream_id",
             "contains": "membership in the orphan set",
+            "StreamIdSet::allocate": "the LOWEST free id is returned and exactly its bit set; every other id unchanged; None iff all 32768 ids are in use (then nothing changes); no arithmetic overflow in the id computation",
+            "lemma_trailing_ones": "for w != all-ones: trailing_ones(w) < 64, that bit is 0, all lower bits are 1 (vstd axioms + bit-vector)",
             "allocate": "Ok(id): id owned by no unanswered request (waiting or orphaned) before; H gains id->handler, R gains request->id, O unchanged; Err: nothing changed and all 32768 ids owned; wf preserved",
             "orphan": "known request: its id moves H->O and stays reserved (bitmap unchanged); unknown request: no change; wf preserved",
             "lookup": "Handler(h): h is the handler registered under exactly this stream id; Orphaned/Missing per ownership; afterwards nobody owns the id; all other ids untouched; wf preserved",
@@ -26,7 +28,7 @@ PROPERTY = {
     "kani_args": ["--cbmc-args", "--max-field-sensitivity-array-size", "1024"],
     "kani": [
         Harness("c02_allocate_small8", "C02.stream_id_set.allocate.small8", "BOUNDED",
-                "real StreamIdSet::allocate, complete contract (minimum free id, exactly its bit set, others unchanged, None iff full) on a fully symbolic bitmap",
+                "real StreamIdSet::allocate as compiled (cross-check of the extractor's loop desugaring used by the Verus proof): complete contract (minimum free id, exactly its bit set, others unchanged, None iff full) on a fully symbolic bitmap",
                 bound="8-word bitmap (512 ids) instead of 512 words; all 2^512 states", functions=[F + "StreamIdSet::allocate"]),
     ] + [Harness(f"c02_allocate_512_k{k:03d}", f"C02.stream_id_set.allocate.512.k{k}", "BOUNDED",
                  f"real 512-word bitmap, words < {k} full, word {k} symbolic, later words zero: lowest free id returned, only its bit set, no i16 overflow",
